@@ -31,6 +31,11 @@ pub struct Case {
   /// graph records for it instead of by its final specifier
   #[serde(default)]
   pub reload_via_redirect: bool,
+  /// restrict the world (in every version) to the sub-domain of TypeScript /
+  /// JavaScript modules and JSON files in which every import of a JSON file
+  /// carries `type: "json"` (see `json_subdomain`)
+  #[serde(default)]
+  pub json_world: bool,
 }
 
 fn params(tier: Tier) -> GenParams {
@@ -129,6 +134,7 @@ pub fn spec() -> PropSpec<Case> {
             repeat,
             edits,
             reload_via_redirect: repeat % 2 == 1,
+            json_world: repeat % 8 >= 6,
           }
         })
         .boxed()
@@ -138,7 +144,7 @@ pub fn spec() -> PropSpec<Case> {
     rule: "generated worlds with 1-5 roots; the roots are partitioned into up to three successive build() calls, a known root is built again, then 0-3 rounds of source edits (replace a module's source, delete a file) each followed by reload() of every specifier whose served source changed (named by its final specifier or, every other case, by the head of the longest redirect chain the graph records for it); non-trivial = (the partition has >= 2 non-empty steps and the graph has >= 3 modules) or (an edit changes the dependency set of a module present in the graph); distinct = distinct case JSON",
     assumptions: &[
       "same-attribute proviso by construction (re-established after every edit; modules whose source changes as a consequence are reloaded too)",
-      "no `type` attributes and no source-map URLs in C19 worlds (the class of a target would otherwise change with an edit of its importer)",
+      "no `type` attributes and no source-map URLs in C19 worlds (the class of a target would otherwise change with an edit of its importer), except in the JSON sub-domain (a quarter of the cases): only JS / TS modules and .json files, JSON files are never roots and every import of one carries `type: \"json\"` in every version",
       "edits change module sources only, not redirects; no redirect cycles; is_dynamic and skip_dynamic_deps at their defaults; no configured imports for code-only graphs",
       "a divergence on a specifier whose acceptance depends on the request context (unknown / JSON media type) is reported once under its own signature",
       "error entries are compared by Display text (referrers legitimately differ between a reload and a fresh build)",
@@ -226,8 +232,83 @@ pub fn apply_edits(world: &World, edits: &[Edit], roots: &[String], imports: &[(
   w
 }
 
+/// The JSON sub-domain: only JS / TS modules and `.json` files; JSON files
+/// are never roots and are imported only by forms that carry `type: "json"`;
+/// nothing else (redirects, other media types, attribute-less forms towards
+/// JSON, configured imports) exists. The rule is structural, so the attribute
+/// class of every target is the same in every version of the sources.
+fn json_subdomain(w: &mut World) {
+  let is_code = |k: &str| {
+    [".ts", ".tsx", ".js", ".jsx", ".mjs", ".mts"].iter().any(|e| k.ends_with(e)) && !k.ends_with(".d.ts")
+  };
+  let keys: Vec<String> = w.entries.keys().cloned().collect();
+  for k in &keys {
+    let keep = match w.entries.get(k) {
+      Some(Entry::Src { .. }) | Some(Entry::Text { .. }) => is_code(k) || k.ends_with(".json"),
+      _ => false,
+    };
+    if !keep {
+      w.entries.remove(k);
+    }
+  }
+  let keys: Vec<String> = w.entries.keys().cloned().collect();
+  for k in keys {
+    if k.ends_with(".json") {
+      // a JSON file (its import items, if any, are never read)
+      if let Some(Entry::Src { headers, .. } | Entry::Text { headers, .. }) = w.entries.get_mut(&k) {
+        headers.clear();
+      }
+      continue;
+    }
+    let Some(Entry::Src { items, headers, .. }) = w.entries.get_mut(&k) else {
+      w.entries.remove(&k);
+      continue;
+    };
+    headers.clear();
+    items.retain(|it| matches!(it, world::Item::Import { .. } | world::Item::SideEffect { .. } | world::Item::Dynamic { .. } | world::Item::Filler));
+    for it in items.iter_mut() {
+      if let world::Item::Import { types, .. } | world::Item::Dynamic { types, .. } = it {
+        *types = None;
+      }
+      let (spec, attr) = match it {
+        world::Item::Import { spec, attr, .. } | world::Item::SideEffect { spec, attr } | world::Item::Dynamic { spec, attr, .. } => (spec.clone(), attr),
+        _ => continue,
+      };
+      let t = world::resolve_key(&k, &spec);
+      *attr = t.ends_with(".json").then(|| "json".to_string());
+    }
+  }
+}
+
 pub fn check(case: &Case, _tier: Tier) -> Outcome {
   let mut o = Outcome::default();
+  let restricted;
+  let case = if case.json_world {
+    let mut c = case.clone();
+    json_subdomain(&mut c.build.world);
+    c.build.imports.clear();
+    c.build.roots.retain(|r| c.build.world.entries.contains_key(r) && !r.ends_with(".json"));
+    if c.build.roots.is_empty() {
+      // any code module will do as a root
+      if let Some(k) = c.build.world.entries.keys().find(|k| !k.ends_with(".json")).cloned() {
+        c.build.roots.push(k);
+      }
+    }
+    if c.build.roots.is_empty() {
+      // nothing to build in the sub-domain: the case runs unrestricted
+      let mut c = case.clone();
+      c.json_world = false;
+      restricted = c;
+      &restricted
+    } else {
+      c.reload_via_redirect = false;
+      restricted = c;
+      o.label("json-sub-domain");
+      &restricted
+    }
+  } else {
+    case
+  };
   let b = &case.build;
   // --- (a) partition
   let mut steps: Vec<Vec<String>> = vec![vec![], vec![], vec![]];
@@ -289,7 +370,10 @@ pub fn check(case: &Case, _tier: Tier) -> Outcome {
     let mut world = b.world.clone();
     let mut graph = inc;
     for round in &case.edits {
-      let new_world = apply_edits(&world, round, &b.roots, &b.imports);
+      let mut new_world = apply_edits(&world, round, &b.roots, &b.imports);
+      if case.json_world {
+        json_subdomain(&mut new_world);
+      }
       let changed: Vec<String> = world
         .entries
         .keys()
